@@ -142,6 +142,8 @@ def stage_node(ctx, e):
         stub = StubLfs(lfsmod.LFS)
         io._lfs = stub
         files, copies = [], []
+        for _ in range(rng.randint(0, 3)):          # offset file ids from copy ids
+            w.file(acq, f"dummy{_}.dat", b"d")
         for i in range(rng.randint(1, 6)):
             f = w.file(acq, f"f{i}.dat", bytes(rng.getrandbits(8) for _ in range(rng.choice([1, 10, 30000, 60000]))))
             c = db.ArchiveFileCopy.create(file=f, node=node, has_file=rng.choice("YYYYMN"), wants_file="Y", ready=rng.random() < 0.6,
@@ -160,7 +162,13 @@ def stage_node(ctx, e):
                 stub.queue[:] = [st]
                 stub.restore_result = rr
                 b_r, b_s = sorted(io._restoring), sorted(io._restore_start)
-                res = io._restore_wait(c)
+                try:
+                    res = io._restore_wait(c)
+                except Exception as ex:  # noqa
+                    ctx.violation("rwait:raised", f"_restore_wait raised {type(ex).__name__}: {ex} (state {st}, restore result {rr}, "
+                                  f"bookkeeping {b_r}/{b_s}, file {c.file_id}, copy {c.id})",
+                                  {"kind": "rwait", "state": st, "restore_result": rr, "restoring": b_r, "started": b_s, "file": c.file_id, "copy": c.id})
+                    break
                 ops.append(f"rwait {','.join(map(str, b_r)) or '-'} {','.join(map(str, b_s)) or '-'} {c.file_id} {st or '-'} "
                            f"{'-' if rr is None else int(rr)}")
                 exps.append(f"{ {True: 'wait', False: 'ready', None: 'error'}[res] } "
